@@ -16,7 +16,11 @@ BOUNDED = ["bounded repetitions e{n}, e{n,}, e{,n}, e{m,n}: the delegation to th
 def specs(tier):
     # C03 is stated over normal and silent rules; the atomicity modifiers are C04's
     rules = [r for r in g.rules() if r.modifier in (0, 2) and not r.trivia_name]
-    return [*g.core_terminals(), *g.structure(), *g.backtracking(), *ops.bounded_repeat_specs(), *rules, *g.entry()]
+    from . import templates as t
+
+    tpl = [*t.terminal_templates(), *t.combinator_templates(3 if tier == "quick" else 5), *t.loop_templates(), *t.identifier_templates(),
+           *[r for r in t.rule_templates() if r.modifier in (0, 2) and not r.trivia_name], *t.entry_templates()]
+    return [*g.core_terminals(), *g.structure(), *g.backtracking(), *ops.bounded_repeat_specs(), *rules, *g.entry(), *tpl]
 
 from .groups import concretise_ops
 concretise = concretise_ops(PROPERTY)
